@@ -13,6 +13,10 @@ ASSUMPTIONS = [
 ]
 
 
+NO_RUNOUT_AUTO = ['ANTE_POSTING', 'BET_COLLECTION', 'BLIND_OR_STRADDLE_POSTING', 'CARD_BURNING', 'HOLE_DEALING', 'BOARD_DEALING',
+                  'HOLE_CARDS_SHOWING_OR_MUCKING', 'HAND_KILLING', 'CHIPS_PUSHING', 'CHIPS_PULLING']
+
+
 def _j(family, cfg, **kw):
     j = {'family': family, 'cfg': cfg}
     j.update(kw)
@@ -27,10 +31,10 @@ def jobs(tier, seed):
     for stacks in [(2, 3), (3, 5, 8), (5, 2, 5)] + ([(4, 4, 4, 4), (8, 8, 8)] if th else []):
         for autos in ('ALL', 'NONE'):
             out.append(_j('NT', C.nt(stacks, autos=autos), opts={'raises': 'minmax', 'show': (None, True, False)}))
-        out.append(_j('NT-cash-runouts', C.nt(stacks, mode='cash'), opts={'raises': 'minmax', 'runouts': (None, 1, 2, 3)}))
+        out.append(_j('NT-cash-runouts', C.nt(stacks, mode='cash', autos=NO_RUNOUT_AUTO), opts={'raises': 'minmax', 'runouts': (None, 1, 2, 3)}))
         out.append(_j('PO-2boards', C.nt(stacks, game='PotLimitOmahaHoldem', boards=2), opts={'raises': 'minmax'}))
         out.append(_j('NS', C.nt(stacks, antes=1, game='NoLimitShortDeckHoldem', blinds=(0, 2)), opts={'raises': 'minmax'}))
-        out.append(_j('NR-20-card-deck', C.nt(stacks, game='NoLimitRoyalHoldem', mode='cash'),
+        out.append(_j('NR-20-card-deck', C.nt(stacks, game='NoLimitRoyalHoldem', mode='cash', autos=NO_RUNOUT_AUTO),
                       opts={'raises': 'minmax', 'runouts': (None, 2, 3)}))
     # stud, 52 cards
     for stacks in [(3, 6), (3, 5, 9)] + ([(9, 2, 4), (4, 6, 8, 3)] if th else []):
@@ -85,7 +89,7 @@ def run_job(job):
 
 def sanity(agg, counters, fam, tier):
     msgs = []
-    for k in ('replenish_seen', 'discards_seen', 'mucks_seen'):
+    for k in ('replenish_seen', 'discards_seen', 'mucks_seen', 'states_with_3+_boards'):
         if not counters.get(k):
             msgs.append(f'{k} == 0: the family built to reach it never did')
     return msgs
